@@ -413,7 +413,8 @@ class Renderer:
         body = []
         for inst in m["insts"]:
             t = self.attrs(inst["attrs"]) + "  " + self.nm(inst["of"])
-            if inst["params"]:
+            later = bool(inst["params"]) and bool(self.cfg.get("defparam")) and r.random() < 0.6
+            if inst["params"] and not later:
                 t += " #(" + ", ".join(".%s(%s)" % (k, v) for k, v in inst["params"].items()) + ")"
             t += " " + self.nm(inst["name"]) + " ("
             if inst["positional"]:
@@ -421,6 +422,10 @@ class Renderer:
             else:
                 t += (",\n      ").join(".%s(%s)" % (self.nm(p), self.expr(m, e)) for p, e in inst["conns"])
             t += ");\n"
+            if later:
+                # the parameters follow their instance as defparam statements (the way Quartus writes netlists)
+                for k, v in inst["params"].items():
+                    t += "  defparam %s.%s = %s;\n" % (self.nm(inst["name"]), k, v)
             body.append(("inst", t))
         for a, b in m["assigns"]:
             body.append(("assign", "  assign %s = %s;\n" % (self.expr(m, a), self.expr(m, b))))
